@@ -1,0 +1,14 @@
+//go:build verif
+
+package updog
+
+// VerifHook, when set, is called at every verifPoint with the name of the
+// site. Only compiled with the verif build tag; used by the verification
+// harness to observe the state of the output file after each commit.
+var VerifHook func(site string)
+
+func verifPoint(site string) {
+	if h := VerifHook; h != nil {
+		h(site)
+	}
+}
